@@ -12,7 +12,7 @@ use crate::tape::{hash_str, Tape};
 
 const NUM_OK: &[&str] = &["1", "0", "-3", "2.5", " 7 ", "1E1", "1e2", "1D2", "1d-1", "&H10", "&hff", "&H1D", "&hbad", "&HD", "&H1E", "&He1", "&H7FFF", "&17", "&77777", "&17", "", "  ", "+5", ".5", "5.", "32767", "-32768", "1.5!", "2#", "3%", "1E+2", "0.1", "12345678.9"];
 const NUM_BAD: &[&str] = &["x", "1 2", "1,", "12abc", "--1", "1E", ".", "&H", "&8", "&HG", "1.2.3", "\"5\"", "1/2", "é", "$5", "1E5E", "0x10"];
-const INT_RANGE: &[&str] = &["32768", "-32769", "40000", "1E10", "99999", "32767.5", "-32768.5"];
+const INT_RANGE: &[&str] = &["32768", "-32769", "40000", "1E10", "99999", "32767.5", "-32768.5", "NAN", "nan", "-NAN", "INF", "-inf", "+Inf", "1E39", "1D400"];
 const STR_FIELDS: &[&str] = &["HELLO", "x", "\"a,b\"", " pad ", "é", "", "\"\"", "\" lead\"", "\"in \"\" side\"", "\"", "a\"b", "\"open", "日本 語", "1,5", "  \"q\"  ", "'single'"];
 
 fn v(n: &str) -> E {
